@@ -432,19 +432,7 @@ Proof.
     destruct (read_loop c (mcl c) false 0 (stream r)) as [t rr] eqn:E2.
     destruct rr; [|discriminate Hu].
     destruct (read_loop_undeclared _ _ _ _ _ E2) as [[n Hn] Hs].
-    assert (Ho : o_reads (match s_gen r with
-                 | SOk => match s_in r with
-                          | SOk => match s_user r with
-                                   | UReturn (RGen FRaise) => Out t true (handle_error r FOther)
-                                   | UReturn _ => Out t true (respond_ok c r)
-                                   | URaise => Out t true (handle_error r FOther)
-                                   end
-                          | SFault => Out t false (handle_error r FOther)
-                          | SCrash e => Out t false (Escapes e)
-                          end
-                 | SFault => Out t false (handle_error r FOther)
-                 | SCrash e => Out t false (Escapes e)
-                 end) = t).
+    match goal with |- context [o_reads ?X] => assert (Ho : o_reads X = t) end.
     { destruct (s_gen r); try reflexivity. destruct (s_in r); try reflexivity.
       destruct (s_user r) as [[|[]]|]; reflexivity. }
     rewrite Ho. split; [eapply saw_eof_reads; eauto | lia].
